@@ -1051,6 +1051,10 @@ func (w *world) doRenew3(p vhlib.ParsedLine) {
 	pt := w.pt
 	cm, wm := w.node.Chain, w.node.Wallet
 	key := renterKey(w.ckey[c])
+	// the RHP3 renewal transaction carries the clearing revision: the contract must be on chain
+	if hc, err := w.node.Contracts.Contract(w.cids[c]); err == nil && !hc.FormationConfirmed {
+		testutil.MineAndSync(w.t, w.node, types.VoidAddress, 1)
+	}
 	cur0 := w.revision(c).Revision
 	rp, col := cur(p.Args["rp"]), cur(p.Args["col"])
 	endHeight := cur0.WindowStart + p.U64("ext")
@@ -1188,6 +1192,8 @@ func (w *world) doMine(p vhlib.ParsedLine) {
 		n = 1
 	}
 	testutil.MineAndSync(w.t, w.node, types.VoidAddress, n)
-	w.havePT = false // the registered price table carries the old height; re-register
+	if w.havePT && w.node.Chain.Tip().Height > w.pt.HostBlockHeight+8 {
+		w.havePT = false // account withdrawals expire relative to the table's height: register a new one
+	}
 	w.tr.Line(fmt.Sprintf("mine n=%d", n), w.dump())
 }
